@@ -259,6 +259,8 @@ JudgeRead(fmt, chain, s, e) ==
          ELSE [viol |-> {}, s |-> s]
     [] OTHER -> [viol |-> {<<"C06", "unclassified_result">>}, s |-> [s EXCEPT !.mode = "lost"]]
 
+\* record sets are kept and compared without the optional view fields
+Strip(sq) == [i \in 1..Len(sq) |-> [k |-> "rec", head |-> sq[i].head, lines |-> sq[i].lines, qual |-> sq[i].qual]]
 JudgeSet(fmt, chain, s, e) ==
   LET r == e.res
       t == e.slot
@@ -266,10 +268,10 @@ JudgeSet(fmt, chain, s, e) ==
       kk == Len(batch)
       N == Len(chain)
       el == chain[s.cur]
-      others == IF \E u \in 1..Len(s.sets) : u # t /\ e.sets[u] # s.sets[u]
+      others == IF \E u \in 1..Len(s.sets) : u # t /\ Strip(e.sets[u]) # s.sets[u]
                 THEN {<<"C04", "other_record_set_changed">>} ELSE {}
       fabset == IF \E i \in 1..kk : ~Member(chain, batch[i], FALSE) THEN {<<"C06", "fabricated_record_in_set">>} ELSE {}
-      keep == [s EXCEPT !.sets[t] = batch, !.ctx = @ \cup {"mixed"}, !.setcap = e.setcap]
+      keep == [s EXCEPT !.sets[t] = Strip(batch), !.ctx = @ \cup {"mixed"}, !.setcap = e.setcap]
       MustRec(i) == i <= N /\ chain[i].okRec /\ chain[i].errs = {} /\ ~chain[i].okEnd
   IN
   IF e.sets_panic \/ r.k \in {"panic", "hang"}
@@ -292,7 +294,7 @@ JudgeSet(fmt, chain, s, e) ==
                    ELSE [s EXCEPT !.mode = "lost"]]
     [] s.mode \in {"stream", "ended", "failed"} /\ r.k = "none" ->
          LET endok == s.mode # "stream" \/ el.okEnd
-             slotok == batch = s.sets[t] \/ batch = <<>>
+             slotok == Strip(batch) = s.sets[t] \/ batch = <<>>
          IN [viol |-> (IF endok THEN {} ELSE {<<"C04", "end_of_input_although_records_left">>})
                       \cup (IF slotok THEN {} ELSE {<<"C04", "record_set_content_after_none">>} \cup fabset) \cup others,
              s |-> IF endok THEN [keep EXCEPT !.mode = IF s.mode = "stream" THEN "ended" ELSE s.mode] ELSE [s EXCEPT !.mode = "lost"]]
